@@ -21,6 +21,7 @@ META = {
     "assumptions": [],
 }
 META["explanation"] += ' R18.2 also requires that no path through apply bypasses the dispatch on the variant (an early return drops the diff).'
+META["explanation"] += ' R18.3 apply and map contain no panic source of their own (overflow / bounds assertion, unwrap / expect, indexing, explicit panic) in any feature configuration.'
 
 ADAPTERS = r"Iterator>?::(rev|skip|take|step_by|filter|filter_map|skip_while|take_while|chain|zip|cycle|flat_map|flatten|scan|peekable|enumerate|inspect|dedup)$"
 
@@ -29,6 +30,7 @@ def run(ctx):
     F = ctx.facts
     r18_1(ctx)
     r18_2(ctx)
+    r18_3(ctx)
 
 
 def r18_1(ctx):
@@ -195,3 +197,32 @@ def r18_2(ctx):
             ctx.violated("R18.2", f, "arm=" + v, where, "VectorDiff::apply, arm %s: %s" % (v, "; ".join(probs)))
         else:
             ctx.holds("R18.2", f, "arm=" + v, where, "%s -> vec.%s(%s)" % (v, want_m, ", ".join(want_f)))
+
+
+PANICKY = r"Option::<.*>::(unwrap|expect)$|Result::<.*>::(unwrap|expect|unwrap_err|expect_err)$|^std::rt::(panic_fmt|begin_panic)|^core::panicking::|ops::Index(Mut)?(<.*>)?>?::index(_mut)?$|slice::index::"
+
+
+def r18_3(ctx):
+    """apply and map add no panic of their own: "apply panics exactly when plain insert / set / remove would". The only places
+    a panic may come from are imbl's own methods (R18.2 fixes which); an overflow / bounds assertion, an unwrap / expect, an
+    indexing operation or an explicit panic inside apply or map (any feature configuration) is a second source. Expected 0."""
+    F = ctx.facts
+    for name in ("apply", "map"):
+        f = F.fn(IM, "vector::VectorDiff::<T>::%s" % name)
+        if f is None or not f.built:
+            continue
+        b = inl(F, f) or f.built
+        bad = []
+        for blk in sorted(b.reachable()):
+            t = b.term(blk)
+            if t["k"] == "assert":
+                bad.append((blk, "a checked arithmetic / bounds assertion"))
+            elif t["k"] == "call" and re.search(PANICKY, t.get("callee") or ""):
+                sp = t.get("span") or {}
+                bad.append((blk, "a call of `%s`" % (t.get("callee") or "").split("::")[-1]))
+        if bad:
+            blk, what = bad[0]
+            ctx.violated("R18.3", f, "no-own-panic", b.line_at((blk, 10 ** 6)),
+                         "`VectorDiff::%s` contains %s: it can panic where the plain imbl operation would not (e.g. `a + b - 1` on two empty vectors), so replaying diffs no longer panics exactly when the plain operations do" % (name, what))
+        else:
+            ctx.holds("R18.3", f, "no-own-panic", f.loc(), "no assertion, unwrap / expect, indexing or explicit panic in %s (helpers inlined)" % name)
